@@ -1005,12 +1005,17 @@ impl ChainMonitor {
 
     // push compact proof transactions through, simulating a streamed block
     fn push_transactions(&self, block_hash: &BlockHash, txs: &[Transaction]) -> BlockDecodeState {
-        let mut state = self.get_state();
+        // The monitor state is not held while the listener runs: decoding a closing
+        // transaction locks the channel, and channel requests lock the channel first and
+        // the monitor state second.
+        let mut decode_state = {
+            let mut state = self.get_state();
 
-        // we are synced if we see a compact proof
-        state.saw_block = true;
+            // we are synced if we see a compact proof
+            state.saw_block = true;
 
-        let mut decode_state = BlockDecodeState::new_with_block_hash(&*state, block_hash);
+            BlockDecodeState::new_with_block_hash(&*state, block_hash)
+        };
 
         let mut listener = PushListener {
             commitment_point_provider: &*self.commitment_point_provider,
@@ -1095,12 +1100,15 @@ impl ChainListener for ChainMonitor {
     where
         F: FnOnce(&mut dyn push_decoder::Listener),
     {
-        let mut state = self.get_state();
+        let state = self.get_state();
         let saw_block = state.saw_block;
 
         let mut decode_state_lock = self.decode_state.lock().expect("lock");
 
         let decode_state = decode_state_lock.get_or_insert_with(|| BlockDecodeState::new(&*state));
+
+        // as in push_transactions, the listener may lock the channel: release the state first
+        drop(state);
 
         let mut listener = PushListener {
             commitment_point_provider: &*self.commitment_point_provider,
@@ -1110,7 +1118,9 @@ impl ChainListener for ChainMonitor {
         f(&mut listener);
 
         // update the saw_block flag, in case the listener saw a block start event
-        state.saw_block = listener.saw_block;
+        let saw_block = listener.saw_block;
+        drop(decode_state_lock);
+        self.get_state().saw_block = saw_block;
     }
 
     fn on_streamed_block_aborted(&self) {
